@@ -131,6 +131,8 @@ def main(tier, seed, replay=None):
                       'or in the middle of the loose/packs/rest transfers; a long-open client keeps the WAL alive; all single placements, random '
                       'double/triple placements, incremental second backups; the backup folder is then opened as a Container; distinct by plan')
     ck.coq()
+    import tracecheck
+    tracecheck.check_traces(ck, ck.pid, names=['add', 'pack', 'pack_clean', 'clean', 'topack', 'pack_then_clean'])
     rnd = ck.rng
     cases = []
     for (call, when), a in itertools.product(POSITIONS, ACTIONS):
